@@ -63,6 +63,9 @@ def base_spec(rng):
             field["example"] = tabular.FIELD_KINDS[field["type"]][2][0]
             if field["type"] == "Decimal" and fmt == "delimited":
                 field["example"] = None
+    if fmt != "fixed" and rng.random() < 0.2:
+        # a sound CID whose example fits its field only together with its trailing blank
+        fields.append({"name": "padded", "type": "Text", "length": "3", "example": "ab "})
     names = [field["name"] for field in fields]
     checks = []
     for index in range(rng.choice([0, 1, 1, 2, 3])):
@@ -186,6 +189,7 @@ defect("type-is-number", "f")(_set(5, "123"))
 defect("length-not-a-range", "f")(_set(4, "abc"))
 defect("length-three-limits", "f")(_set(4, "1...2...3"))
 defect("length-descending", "f")(_set(4, "5...1"))
+defect("length-descending-to-zero", "f", only=lambda rows: not _fixed_only(rows))(_set(4, "5...0"))
 defect("length-ellipsis-only", "f")(_set(4, "..."))
 defect("length-overlapping-items", "f")(_set(4, "1...3, 2...4"))
 defect("length-negative", "f", only=lambda rows: not _fixed_only(rows))(_set(4, "-2...3"))
@@ -195,6 +199,8 @@ defect("fixed-length-zero", "f", only=_fixed_only)(_set(4, "0"))
 defect("fixed-length-open", "f", only=_fixed_only)(_set(4, "2..."))
 defect("integer-rule-symbol", "f", type_name="Integer")(_set(6, "abc"))
 defect("integer-rule-descending", "f", type_name="Integer")(_set(6, "10...1"))
+defect("integer-rule-descending-to-zero", "f", type_name="Integer")(_set(6, "10...0"))
+defect("decimal-rule-descending-to-zero", "f", type_name="Decimal")(_set(6, "1.5...0"))
 defect("integer-rule-overlap", "f", type_name="Integer")(_set(6, "1...5, 5...9"))
 defect("decimal-rule-not-a-number", "f", type_name="Decimal")(_set(6, "abc"))
 defect("decimal-rule-descending", "f", type_name="Decimal")(_set(6, "9.5...1.5"))
@@ -215,6 +221,8 @@ defect("constant-two-tokens", "f", type_name="Constant")(_set(6, "k j"))
 defect("regex-does-not-compile", "f", type_name="RegEx")(_set(6, "a+b("))
 defect("example-rejected-integer", "f", type_name="Integer")(_set(2, "abc"))
 defect("example-rejected-choice", "f", type_name="Choice")(_set(2, "blue"))
+# outside fixed-width data a blank is a character like any other: " red" is not one of the choices
+defect("example-rejected-choice-leading-blank", "f", type_name="Choice", only=lambda rows: not _fixed_only(rows))(_set(2, " red"))
 defect("example-rejected-datetime", "f", type_name="DateTime")(_set(2, "31.02.2003"))
 defect("example-rejected-regex", "f", type_name="RegEx")(_set(2, "zzz"))
 
